@@ -1082,7 +1082,7 @@ fn main() {
     }
     let n_hist: usize = arg_value(&args, "--histories").and_then(|s| s.parse().ok()).unwrap_or_else(|| ctx.pick(6000, 40_000));
     let threads: usize = arg_value(&args, "--threads").and_then(|s| s.parse().ok()).unwrap_or(16);
-    let wall_cap = ctx.pick(75.0, 520.0);
+    let wall_cap = ctx.pick(75.0, 520.0) * Ctx::wall_scale();
 
     if let Some(s) = replay_special {
         let r = std::panic::catch_unwind(std::panic::AssertUnwindSafe(|| if s == "probe" { probe_history(&ctx) } else { huge_history(&ctx) }));
